@@ -5,12 +5,16 @@
   iterations write the same cell shows up as a "shared" entry and this theorem stops checking.
 
   Why these kinds are private: the element-wise normalisations and the interlacing combination write only the element / row of the iteration.
+
+  `loopvar`, `tid` (the executing thread's own row) and `local` (an array created inside the loop body) are
+  unconditionally private and allowed everywhere; `block` / `cursor` kinds are allowed only where a theorem of this
+  property proves the blocks / cursors disjoint.
 -/
 import AbacusVerif.Generated.PrangeC13
 
 namespace AbacusVerif.PrangeC13
 
-def allowedKinds : List String := ["loopvar"]
+def allowedKinds : List String := ["loopvar", "tid", "local"]
 
 /-- every store in every `prange` loop is of a private kind -/
 theorem prange_writes_private : ∀ e ∈ prangeWrites, e.2.2 ∈ allowedKinds := by decide +kernel
